@@ -312,11 +312,43 @@ def confirm_native(kind, case, tr):
                 live.discard(e[1])
         return False
     if kind == 'alive':
-        return True   # outcome compared by caller through rc/stuck; any divergence from the spec counts
+        # specification: the one-shot run stays alive iff a requested target is, or aggregates, a service
+        deps = {int(k): v for k, v in case['deps'].items()}
+        kinds = case['kinds']
+
+        def has_service(t):
+            if kinds[t] == 'service':
+                return True
+            if kinds[t] == 'aggregate':
+                return any(has_service(d) for d in deps.get(t, []))
+            return False
+        should_stay = any(has_service(r) for r in case['roots'])
+        stays = tr.stuck and not tr.main_done
+        return stays != should_stay
     if kind == 'leak':
         return bool(tr.unreaped) or any(l.startswith('proc_dropped_unreaped') for l in tr.log)
     if kind == 'notstarted':
-        return True
+        # some target of the closure, none of whose transitive build dependencies is one of the never-ending scripts, was never started
+        deps = {int(k): v for k, v in case['deps'].items()}
+        kinds = case['kinds']
+        hang = set(case.get('hang', []))
+        need = set()
+
+        def add(t):
+            if t not in need:
+                need.add(t)
+                for d in deps.get(t, []):
+                    add(d)
+        for r in case['roots']:
+            add(r)
+
+        def blocked(t, seen=()):
+            for d in deps.get(t, []):
+                if (kinds[d] == 'build' and d in hang) or blocked(d):
+                    return True
+            return False
+        spawned = {e[1] for e in evs if e[0] == 'spawn'}
+        return any(kinds[t] != 'aggregate' and not blocked(t) and t not in spawned for t in need)
     return False
 
 
